@@ -65,6 +65,7 @@ func runOne(c *hxlib.Ctx, in *txexec.BlockIn) *txexec.BlockObs {
 
 func gen(c *hxlib.Ctx) {
 	r := c.Rand
+	txexec.RealHangBudget = 3 // frames that really hang (each blocks for txexec.TxTimeout)
 	var canaryIn *txexec.BlockIn
 	var canaryObs *txexec.BlockObs
 	for i := 0; i < c.N(120); i++ {
